@@ -415,7 +415,7 @@ func runCheck(id, tier, repo, keep string, writeEvidence bool) int {
 		sort.Strings(assumptions)
 		inl := keys(inlinedUsed)
 		cov := map[string]interface{}{
-			"obligations":              total - knownHit - violations,
+			"obligations":              total - knownHit,
 			"discharged":               discharged,
 			"obligations_generated":    total,
 			"obligations_failed_unlisted": violations,
